@@ -41,6 +41,8 @@ const preludeCommon = `
 (define-fun inu8 ((x Int)) Bool (and (<= 0 x) (<= x 255)))
 (define-fun godiv ((a Int) (b Int)) Int (ite (>= a 0) (ite (> b 0) (div a b) (- (div a (- b)))) (ite (> b 0) (- (div (- a) b)) (div (- a) (- b)))))
 (define-fun gomod ((a Int) (b Int)) Int (- a (* b (godiv a b))))
+(declare-fun eref (Slice Int) Ref)
+(assert (forall ((s Slice) (i Int)) (! (= (eref s i) (elem (sbase s) (+ (soff s) i))) :pattern ((eref s i)))))
 (define-fun validslice ((s Slice)) Bool (and (<= (scap s) 9223372036854775807) (>= (slen s) 0) (>= (soff s) 0) (>= (scap s) (slen s)) (>= (sbase s) 0) (=> (= (sbase s) 0) (= s nilslice))))
 `
 
